@@ -309,6 +309,8 @@ def same_value(a, b, tol=False):
     if tol and isinstance(a, (int, float)) and isinstance(b, (int, float)) and not isinstance(a, bool) and not isinstance(b, bool):
         if a == b:
             return True
+        if (isinstance(a, float) and (a != a or a in (float("inf"), float("-inf")))) or (isinstance(b, float) and (b != b or b in (float("inf"), float("-inf")))):
+            return False   # an infinity (or NaN) is only equal to itself: no tolerance reaches it
         try:
             return abs(a - b) <= 1e-12 + 1e-9 * max(abs(a), abs(b))
         except OverflowError:
